@@ -153,16 +153,20 @@ def check_environ(env, inp, r, hostinfo):
     if env.get("SERVER_PROTOCOL") != "HTTP/" + r["version"]:
         yield ("SERVER_PROTOCOL", "%r" % (env.get("SERVER_PROTOCOL"),))
     sn, sp = env.get("SERVER_NAME"), env.get("SERVER_PORT")
+    bad_name = bad_port = False
     if not isinstance(sn, str) or not sn:
         yield ("SERVER_NAME:empty:host=" + hclass, "SERVER_NAME %r" % (sn,))
     elif names is not None and sn.lower() not in names:
-        yield ("SERVER_NAME:host=" + hclass,
-               "Host %r -> SERVER_NAME %r, expected one of %r" % (r["host"], sn, sorted(names)))
+        bad_name = True
     if not isinstance(sp, str) or not re.match(r"^[0-9]+$", sp):
         yield ("SERVER_PORT:not-digits:host=" + hclass, "SERVER_PORT %r" % (sp,))
     elif port is not None and int(sp) != port:
-        yield ("SERVER_PORT:host=" + hclass,
-               "Host %r -> SERVER_PORT %r, expected %d" % (r["host"], sp, port))
+        bad_port = True
+    if bad_name or bad_port:
+        # one signature per Host form: name and port come from one split
+        yield ("SERVER_NAME/PORT:host=" + hclass,
+               "Host %r -> SERVER_NAME %r SERVER_PORT %r, expected name in %r and port %d"
+               % (r["host"], sn, sp, sorted(names), port))
     if names is None:
         yield ("either:no-host-1.0", None)
     if "REMOTE_ADDR" in env and env["REMOTE_ADDR"] != PEER_IP:
@@ -256,6 +260,13 @@ RESP_REQS_Q = [("GET", "1.1", False), ("HEAD", "1.1", False), ("GET", "1.0", Fal
 RESP_REQS_T = RESP_REQS_Q + [("POST", "1.1", False), ("GET", "1.0", True), ("HEAD", "1.0", True)]
 SERVER_OWNED = {"connection", "date", "keep-alive", "transfer-encoding"}
 DEFAULTABLE = {"content-length", "content-type", "server"}
+
+MULTIPART_BODY = (b'--x\r\nContent-Disposition: form-data; name="a"\r\n\r\n1\r\n--x--\r\n')
+
+
+def _multipart(headers):
+    return any(n.lower() == "content-type" and v.startswith("multipart/") for n, v in headers)
+
 
 SIMPLE_RESP = {"status": "200 OK", "headers": [("X-Ok", "1")], "writes": [], "chunks": [b"ok"],
                "kind": "list"}
@@ -486,9 +497,11 @@ class C47(Check):
             host, version, hclass, names, port = H[hi]
             method = M[mi]
             own_cl = any(n.lower() == "content-length" for n, v in HS[si])
+            body = b"" if own_cl else BODIES.get(method, b"")
+            if body and _multipart(HS[si]):
+                body = MULTIPART_BODY
             reqs.append({"method": method, "path": P[pi], "query": Q[qi], "version": version,
-                         "host": host, "headers": list(HS[si]),
-                         "body": b"" if own_cl else BODIES.get(method, b""),
+                         "host": host, "headers": list(HS[si]), "body": body,
                          "keepalive": version == "1.0" and len(case["reqs"]) > 1})
             infos.append((hclass, names, port))
             specs.append(EMPTY_RESP if method == "HEAD" else SIMPLE_RESP)
@@ -522,6 +535,17 @@ class C47(Check):
                          case)
             st.outcome(("raise", where, name))
             return
+        n = len(res["env"])
+        if n < len(reqs) and _multipart(reqs[n]["headers"]) and not reqs[n]["body"] \
+                and res["out"].endswith(b"HTTP/1.1 400 Bad Request\r\n\r\n"):
+            # the HTTP server itself refuses a multipart content type without a
+            # multipart body: the request is not "accepted", nothing to judge
+            st.note("not-accepted-by-server:multipart-without-body")
+            st.outcome(("not-accepted", n))
+            reqs, infos, specs = reqs[:n], infos[:n], specs[:n]
+            if not reqs:
+                return
+            res["out"] = res["out"][:-len(b"HTTP/1.1 400 Bad Request\r\n\r\n")]
         if len(res["env"]) != len(reqs):
             st.error("application called %d times for %d requests: %r; output %r"
                      % (len(res["env"]), len(reqs), case, res["out"][:80]))
